@@ -236,66 +236,3 @@ Section Det.
       destruct (dsel (s_tests x) k w) as [s'|]; [apply IH | reflexivity].
   Qed.
 End Det.
-
-(* ---- exactness certificates ---- *)
-Section Cert.
-  Variable tbl : list st.
-  Variable las : list la.
-
-  Definition cert1 (T : nat) (h : la) (good : pst -> bool) : bool :=
-    let R := pexplore tbl h 3000 [([T], PScan)] [] in
-    ppmem ([T], PScan) R && pclosed tbl h good R.
-
-  Lemma cert1_sound T h good : cert1 T h good = true -> forall u, runN tbl [T] u = true -> good (prun h PScan u) = true.
-  Proof.
-    unfold cert1. intros C u Hr. apply andb_prop in C as [M C].
-    unfold ppmem in M. rewrite existsb_exists in M. destruct M as (y & Hy & By). apply ppair_beq_eq in By. subst y.
-    eapply (pclosed_sound tbl h good _ C u); eauto.
-  Qed.
-
-  Definition overlap (y z : test) : bool := existsb (fun k => ans (t_kind y) k && ans (t_kind z) k) all_kinds.
-
-  Fixpoint exact_tests (tests : list test) : bool :=
-    match tests with
-    | [] => true
-    | y :: post =>
-      match t_guard y with
-      | None => true
-      | Some hn =>
-        match flook las hn with
-        | None => false
-        | Some h =>
-          la_eof_free h && cert1 (t_tgt y) h (fun p => pst_beq p PYes)
-          && forallb (fun z => negb (overlap y z) || cert1 (t_tgt z) h (fun p => negb (pst_beq p PYes))) post
-        end
-      end && exact_tests post
-    end.
-
-  Lemma exact_tests_sound tests : exact_tests tests = true -> exact_at tbl las tests.
-  Proof.
-    induction tests as [|y0 ys IH]; intros C pre y post E; [destruct pre; discriminate|].
-    cbn [exact_tests] in C. apply andb_prop in C as [C0 Cs].
-    destruct pre as [|p pre]; cbn [app] in E; inversion E; subst.
-    - destruct (t_guard y) as [hn|]; [|exact I].
-      destruct (flook las hn) as [h|]; [|discriminate]. apply andb_prop in C0 as [C0 C2]. apply andb_prop in C0 as [Ce C1].
-      exists h. split; [reflexivity|]. split; [exact Ce|]. split.
-      + intros u Hr. pose proof (cert1_sound _ _ _ C1 u Hr) as G. destruct (prun h PScan u); try discriminate; reflexivity.
-      + intros z Hz k A1 A2 u Hr. rewrite forallb_forall in C2. specialize (C2 z Hz).
-        apply orb_prop in C2 as [C2|C2].
-        * exfalso. apply negb_true_iff in C2. unfold overlap in C2.
-          assert (X : existsb (fun k0 => ans (t_kind y) k0 && ans (t_kind z) k0) all_kinds = true).
-          { apply existsb_exists. exists k. split; [apply all_kinds_complete | now rewrite A1, A2]. }
-          congruence.
-        * pose proof (cert1_sound _ _ _ C2 u Hr) as G. intros X. rewrite X in G. discriminate.
-    - apply (IH Cs pre y post eq_refl).
-  Qed.
-End Cert.
-
-Lemma table_exact : forallb (fun x => exact_tests Table.table Table.lookaheads (s_tests x)) Table.table = true.
-Proof. vm_compute. reflexivity. Qed.
-
-Theorem det_language : forall w, dacc Table.table Table.lookaheads Table.start_state w = runN Table.table [Table.start_state] (w ++ [KEOF]).
-Proof.
-  intros w. apply dacc_runN. intros x Hx. apply exact_tests_sound.
-  pose proof table_exact as T. rewrite forallb_forall in T. exact (T x Hx).
-Qed.
